@@ -24,11 +24,21 @@ type genVer struct {
 }
 
 type genState struct {
+	kd    *KeyDialect
 	g     *Gen
 	cfg   *Config
 	trees []*genTree
 	vers  []*genVer
 	ops   []Op
+}
+
+// layerOf: the generator may look at key layers (independent rule) to aim probes
+// at interior keys; the dialect is built lazily.
+func (s *genState) layerOf(k int) int {
+	if s.kd == nil {
+		s.kd = NewKeyDialect(s.cfg.KeyD, s.cfg.U, s.cfg.Layers)
+	}
+	return IndepLayer(s.kd.Key(k), s.cfg.BF)
 }
 
 func cpMap(m map[int]int) map[int]int {
@@ -108,7 +118,7 @@ func GenConfig(prop string, g *Gen, tier string) Config {
 	c.Format = []string{FmtBinary, FmtMarshaler}[g.Intn(2)]
 	c.Marshaler = "json"
 	c.KeyD = allKeyDialects[g.Intn(len(allKeyDialects))]
-	c.ValD = []string{"int", "int", "string", "struct", "bytes", "lval", "nil"}[g.Intn(7)]
+	c.ValD = []string{"int", "int", "string", "struct", "bytes", "lval", "nil", "ptr"}[g.Intn(8)]
 	c.Disks = 1
 	c.U = []int{8, 12, 20, 40, 80, 200}[g.Intn(6)]
 	switch g.Intn(8) {
@@ -134,6 +144,10 @@ func GenConfig(prop string, g *Gen, tier string) Config {
 	}
 	if c.KeyD == "userkey" {
 		c.Layers = genLayers(g, c.U)
+	}
+	if g.Intn(6) == 0 {
+		// a configured KeyCompare that returns any negative/positive number, not just -1/+1
+		c.CmpScale = []int{2, 7, 1000}[g.Intn(3)]
 	}
 	switch prop {
 	case "C01", "C10", "C06":
@@ -175,7 +189,11 @@ func GenConfig(prop string, g *Gen, tier string) Config {
 		}
 	case "C15", "C16", "C13":
 		// big-tree profiles use cheap dialects
-		if g.Intn(3) == 0 {
+		bigOdds := 10
+		if tier == "thorough" {
+			bigOdds = 4
+		}
+		if g.Intn(bigOdds) == 0 {
 			c.KeyD = []string{"int", "uint", "string", "uint64"}[g.Intn(4)]
 			c.ValD = "int"
 			c.U = []int{2000, 5000}[g.Intn(2)]
@@ -462,6 +480,7 @@ func (s *genState) emit(kind, prop string) {
 		case 1:
 			op.F = "err"
 			op.N = 1 + g.Intn(3)
+			op.Val = g.Intn(2) // keepGoing returned together with the error
 		}
 		s.ops = append(s.ops, op)
 	case "difflinks":
@@ -484,14 +503,39 @@ func (s *genState) emit(kind, prop string) {
 		vi := roots[g.Intn(len(roots))]
 		v := s.vers[vi]
 		op := Op{K: "probe", A: refVerBase + vi, F: []string{"get", "get", "ins", "ins", "del", "del", "clone"}[g.Intn(7)], Val: g.Intn(50)}
-		if len(v.snap) > 0 && g.Intn(2) == 0 {
-			ks := make([]int, 0, len(v.snap))
-			for k := range v.snap {
-				ks = append(ks, k)
+		switch g.Intn(4) {
+		case 0, 1:
+			if len(v.snap) > 0 {
+				ks := make([]int, 0, len(v.snap))
+				for k := range v.snap {
+					ks = append(ks, k)
+				}
+				sort.Ints(ks)
+				op.Key = ks[g.Intn(len(ks))]
+				if g.Intn(2) == 0 {
+					// bias towards interior (high-layer) keys: best of 8 samples
+					best := s.layerOf(op.Key)
+					for i := 0; i < 8; i++ {
+						k := ks[g.Intn(len(ks))]
+						if l := s.layerOf(k); l > best {
+							best, op.Key = l, k
+						}
+					}
+				}
+			} else {
+				op.Key = g.Intn(s.cfg.U)
 			}
-			sort.Ints(ks)
-			op.Key = ks[g.Intn(len(ks))]
-		} else {
+		case 2:
+			// absent or present key of a high layer
+			op.Key = g.Intn(s.cfg.U)
+			best := s.layerOf(op.Key)
+			for i := 0; i < 8; i++ {
+				k := g.Intn(s.cfg.U)
+				if l := s.layerOf(k); l > best {
+					best, op.Key = l, k
+				}
+			}
+		default:
 			op.Key = g.Intn(s.cfg.U)
 		}
 		s.ops = append(s.ops, op)
